@@ -231,6 +231,12 @@ def make_signal(times, vals, vt):
     return pyrex.Signal(times, vals, value_type=pyrex.Signal.Type(vt) if vt != 0 else pyrex.Signal.Type.undefined)
 
 
+class _Axes:
+    """the three attributes the gain oracle needs, for axes that are known from the requests made"""
+    def __init__(self, z_axis, x_axis, position):
+        self.z_axis, self.x_axis, self.position = np.asarray(z_axis, float), np.asarray(x_axis, float), np.asarray(position, float)
+
+
 def expected_gains(ant, p, direction, pol):
     """gains by vector geometry, independent of the code's coordinate conversion"""
     z = np.asarray(ant.z_axis, float)
@@ -332,7 +338,8 @@ let pr_init (((eh, af), (lo, hi)), (b, a)) =
 FUNCS = ["Antenna_convert_to_antenna_coordinates", "DipoleAntenna_directional_gain", "DipoleAntenna_polarization_gain",
          "DipoleAntenna_frequency_response", "DipoleAntenna_init_params", "Antenna_apply_response",
          "DipoleAntenna_apply_response", "AntennaSystem_Antenna_apply_response", "AntennaSystem_DipoleAntenna_apply_response",
-         "Antenna_set_orientation", "AntennaSystem_Antenna_set_orientation", "receive_model"]
+         "Antenna_set_orientation", "AntennaSystem_Antenna_set_orientation", "DipoleAntenna_set_orientation",
+         "AntennaSystem_DipoleAntenna_set_orientation", "receive_model"]
 
 
 def ang_diff(a, b):
@@ -476,6 +483,58 @@ def correspondence(ctx):
                                  "polarization": None if pol is None else [float(v) for v in pol], "force_real": fr,
                                  "through_system": sysw, "tol": tol}, got, None))
 
+    # (d2) histories: construct, re-orient one or more times (directly or through the system), then respond.
+    #      The model folds its own set_orientation over the same requests and responds with the axes it reached.
+    dist["history"] = {}
+    for _ in range(ctx.n(30, 800)):
+        cls = rng.choice(["Antenna", "DipoleAntenna", "DipoleAntenna"])
+        p = mk.params(cls)
+        ant = mk.build(p)
+        sysw = rng.random() < 0.5
+        sysobj = mk.wrap(ant) if sysw else None
+        coeffs = None if cls == "Antenna" else (np.real(ant.filter_coeffs[0]), np.real(ant.filter_coeffs[1]))
+        start = oant(ant, coeffs)
+        steps = []
+        for _k in range(rng.randint(1, 3)):
+            z, x = rand_frame(rng)
+            z, x = z * rng.choice([1.0, 3.0, 0.2]), x * rng.choice([1.0, 0.5])
+            via = sysw and rng.random() < 0.6
+            (sysobj if via else ant).set_orientation(z_axis=z, x_axis=x)
+            steps.append({"z": [float(v) for v in z], "x": [float(v) for v in x], "via_system": bool(via)})
+        times, vals = rand_signal_data(rng, rng.choice([2, 4, 8, 16]))
+        vt = rng.choice([1, 2])
+        direction = rand_unit(rng) * rng.choice([1.0, 4.0])
+        pol = rand_unit(rng) * rng.choice([1.0, 0.3])
+        fr = rng.random() < 0.5
+        obj = sysobj if (sysw and rng.random() < 0.5) else ant
+        with np.errstate(all="ignore"):
+            out = obj.apply_response(make_signal(times, vals, vt), direction=direction, polarization=pol, force_real=fr)
+        got = (float(out.value_type.value),) + tuple(float(v) for v in out.values) + tuple(float(v) for v in out.times)
+        H = response_H(p)
+        filtered, hmax = oracle_filter(times, vals, H, fr)
+        filt = "ident_filter" if cls == "Antenna" else "(const_filter %s)" % olist(filtered)
+        name = {"Antenna": "antenna", "DipoleAntenna": "dipoleAntenna"}[cls]
+        code = ["let a0 = %s in" % start]
+        for i, st in enumerate(steps):
+            fn = ("M.antennaSystem_%s_set_orientation" % cls) if st["via_system"] else ("M.%s_set_orientation" % name)
+            code.append("let a%d = (match %s a%d %s %s with Some (z, x) -> {a%d with M.ant_z_axis = z; M.ant_x_axis = x} | None -> failwith \"rejected\") in" % (
+                i + 1, fn, i, ov(st["z"]), ov(st["x"]), i))
+        code.append("prsig (M.%s_apply_response %s a%d %s %s %s %s)" % (name, filt, len(steps), osig(times, vals, vt), oopt(direction), oopt(pol), "true" if fr else "false"))
+        cases.append("(" + " ".join(code) + ")")
+        zn = np.asarray(steps[-1]["z"]) / np.linalg.norm(steps[-1]["z"])
+        xn = np.asarray(steps[-1]["x"]) / np.linalg.norm(steps[-1]["x"])
+        shim = _Axes(zn, xn, ant.position)
+        d, pg, dd, pp = expected_gains(shim, p, direction, pol)
+        af, eff = antenna_factor_expected(p)
+        fac = eff / (af if vt == 2 else 1.0)
+        fmax = float(np.max(np.abs(filtered))) if len(filtered) else 0.0
+        tol = filter_tol(vals, hmax, d * pg * fac) + (dd * abs(pg) + abs(d) * pp + 64 * EPS * abs(d * pg)) * abs(fac) * max(fmax, float(np.max(np.abs(vals))))
+        checks.append(("history", {"params": p, "steps": steps, "times": [float(t) for t in times], "values": [float(v) for v in vals], "value_type": vt,
+                                   "direction": [float(v) for v in direction], "polarization": [float(v) for v in pol], "force_real": fr,
+                                   "through_system": obj is sysobj, "tol": tol}, got, None))
+        kk = "%s:%d steps:%s" % (cls, len(steps), "system" if any(st["via_system"] for st in steps) else "direct")
+        dist["history"][kk] = dist["history"].get(kk, 0) + 1
+
     # (e) receive sequences on the base Antenna (its filter is the identity), mixed types / lengths
     pins = current_pins()
     recorded = json.load(open(PIN_FILE)) if os.path.exists(PIN_FILE) else {}
@@ -591,7 +650,7 @@ def correspondence(ctx):
                 disagree(kind, meta, r, exp)
             elif r != "None" and not all(abs(a - b) <= 8 * EPS for a, b in zip(r, exp)):
                 disagree(kind, meta, r, exp)
-        elif kind == "apply":
+        elif kind in ("apply", "history"):
             if (r == "None") != (exp == "None"):
                 disagree(kind, meta, r, exp, " (accept/reject)")
             elif r != "None":
@@ -621,7 +680,7 @@ def correspondence(ctx):
                 ctx.fail("receive:%s" % json.dumps(meta, sort_keys=True, default=str)[:300],
                          "Antenna.receive history disagrees with the model (signals stored / rejected / summed): impl=%r model=%r" % (exp, r),
                          {"kind": "receive", **meta})
-    for k in ("coords", "gain", "init", "freq", "orient", "apply", "receive"):
+    for k in ("coords", "gain", "init", "freq", "orient", "apply", "history", "receive"):
         ctx.oblige("corr:%s(%d cases)" % (k, sum(1 for c in checks if c[0] == k)), bad.get(k, 0) == 0, "%d disagreements" % bad.get(k, 0))
     ctx.extra["correspondence_distribution"] = dist
     ctx.extra["correspondence_tolerance"] = ("coordinates: 16 eps x scale, angles conditioned by 1/sin(theta); gains 16 eps; constructor arithmetic 1e-12 rel; "
@@ -792,6 +851,127 @@ def probes(ctx):
                                   "rotations from quaternions and from Rodrigues' formula; tolerances = first-order rounding bounds (see harness/props/c08.py) + 1e-9 relative")
 
 
+def probe_histories(ctx):
+    """Multi-step histories: construct (also through AntennaSystem.setup_antenna), respond, re-orient one or more times
+    (directly or through the system), respond again.  Every response is judged against the gain oracle for the axes
+    REQUESTED LAST (never read back from the object), against a freshly constructed antenna with those axes, and
+    under a joint rotation of the current axes, direction and polarization."""
+    import pyrex
+    rng = ctx.rng
+    mk = Maker(rng)
+    stats = {"histories": 0, "responses": 0, "reorientations": {"direct": 0, "system": 0}, "fresh": 0, "rotation": 0, "receive": 0, "setup_antenna": 0}
+    for it in range(ctx.n(40, 1000)):
+        cls = rng.choice(["Antenna", "DipoleAntenna", "DipoleAntenna", "ProbeAntenna"])
+        p = mk.params(cls)
+        mode = rng.choice(["bare", "wrapped", "setup"])
+        if mode == "setup" and cls != "ProbeAntenna":
+            np.random.seed(p["np_seed"])
+            if cls == "Antenna":
+                sysobj = pyrex.AntennaSystem(pyrex.Antenna)
+                sysobj.setup_antenna(position=list(p["position"]), z_axis=p["z"], x_axis=p["x"], antenna_factor=p["antenna_factor"],
+                                     efficiency=p["efficiency"], noisy=False)
+            else:
+                sysobj = pyrex.AntennaSystem(pyrex.DipoleAntenna)
+                sysobj.setup_antenna(name="d", position=list(p["position"]), center_frequency=p["center_frequency"], bandwidth=p["bandwidth"],
+                                     temperature=300, resistance=100, orientation=p["z"], effective_height=p["effective_height"], noisy=False)
+            ant = sysobj.antenna
+            stats["setup_antenna"] += 1
+        else:
+            ant = mk.build(p)
+            sysobj = mk.wrap(ant) if mode != "bare" else None
+        cur_z = np.asarray(p["z"], float) / np.linalg.norm(p["z"])
+        cur_x = None if cls == "DipoleAntenna" else np.asarray(p["x"], float) / np.linalg.norm(p["x"])   # the dipole draws its own x-axis
+        H = response_H(p)
+        af, eff = antenna_factor_expected(p)
+        history = []
+        stats["histories"] += 1
+        nsteps = rng.randint(2, 5)
+        for step in range(nsteps):
+            do_orient = step > 0 and (rng.random() < 0.7 or step == 1)
+            if do_orient:
+                z, x = rand_frame(rng)
+                z, x = z * rng.choice([1.0, 2.0, 0.1]), x * rng.choice([1.0, 5.0])
+                via = sysobj is not None and rng.random() < 0.6
+                (sysobj if via else ant).set_orientation(z_axis=z, x_axis=x)
+                cur_z, cur_x = z / np.linalg.norm(z), x / np.linalg.norm(x)
+                history.append({"op": "set_orientation", "z": [float(v) for v in z], "x": [float(v) for v in x], "via_system": bool(via)})
+                stats["reorientations"]["system" if via else "direct"] += 1
+            # respond
+            times, xv = rand_signal_data(rng, rng.choice([2, 4, 8, 16, 32]))
+            vt = rng.choice([1, 2])
+            direction = rand_unit(rng) * rng.choice([1.0, 6.0])
+            pol = rand_unit(rng) * rng.choice([1.0, 2.0, 0.2])
+            fr = rng.random() < 0.5
+            obj = sysobj if (sysobj is not None and rng.random() < 0.6) else ant
+            use_receive = rng.random() < 0.4
+            history.append({"op": "receive" if use_receive else "apply_response", "times": [float(t) for t in times], "values": [float(v) for v in xv],
+                            "value_type": vt, "direction": [float(v) for v in direction], "polarization": [float(v) for v in pol], "force_real": fr,
+                            "through_system": obj is sysobj})
+            rep = {"kind": "history", "params": p, "mode": mode, "history": [dict(h) for h in history]}
+            ctx.case(key=("history", it, step))
+            n0 = len(ant.signals)
+            try:
+                with np.errstate(all="ignore"):
+                    if use_receive:
+                        obj.receive(make_signal(times, xv, vt), direction=direction, polarization=pol, force_real=fr)
+                        out = ant.signals[-1] if len(ant.signals) == n0 + 1 else None
+                    else:
+                        out = obj.apply_response(make_signal(times, xv, vt), direction=direction, polarization=pol, force_real=fr)
+            except Exception as ex:
+                ctx.fail("history-raises:%s" % cls, "%s raised %r in step %d of a construct / re-orient / respond history" % (cls, ex, step), rep)
+                break
+            stats["responses"] += 1
+            if use_receive:
+                stats["receive"] += 1
+                if out is None:
+                    ctx.fail("history-receive-count:%s" % cls, "receive did not store exactly one signal (step %d)" % step, rep)
+                    break
+            # (a) the oracle for the axes requested last
+            fx, hmax = oracle_filter(times, xv, H, fr)
+            x_for_oracle = cur_x if cur_x is not None else np.asarray(ant.x_axis, float)     # the dipole's gains do not involve x
+            d, pg, dd, pp = expected_gains(_Axes(cur_z, x_for_oracle, ant.position), p, direction, pol)
+            k = eff / (af if vt == 2 else 1.0)
+            want = fx * d * pg * k
+            scale = max(float(np.max(np.abs(fx))), float(np.max(np.abs(xv))))
+            tol = filter_tol(xv, hmax, d * pg * k) + (dd * abs(pg) + abs(d) * pp + 64 * EPS * abs(d * pg)) * abs(k) * scale + 1e-9 * float(np.max(np.abs(want))) + 1e-300
+            err = float(np.max(np.abs(np.asarray(out.values, float) - want)))
+            if not err <= tol:
+                ctx.fail("history-factor:%s:%d" % (cls, it),
+                         "%s after %d re-orientation(s): the response does not use the gains of the CURRENT axes (directional %.6g x polarization %.6g expected; max error %.3g > %.3g)" % (
+                             cls, sum(1 for h in history if h["op"] == "set_orientation"), d, pg, err, tol), rep)
+                break
+            # (b) a freshly constructed antenna with the current axes answers the same
+            p_f = dict(p)
+            p_f["z"] = [float(v) for v in cur_z]
+            if cur_x is not None:
+                p_f["x"] = [float(v) for v in cur_x]
+            fresh = mk.build(p_f)
+            with np.errstate(all="ignore"):
+                r_f = fresh.apply_response(make_signal(times, xv, vt), direction=direction, polarization=pol, force_real=fr)
+            stats["fresh"] += 1
+            ftol = 2 * ((dd + 64 * EPS) * abs(pg) + abs(d) * (pp + 64 * EPS) + 64 * EPS * abs(d * pg)) * abs(k) * scale + 1e-9 * float(np.max(np.abs(want))) + 1e-300
+            err = float(np.max(np.abs(np.asarray(out.values, float) - np.asarray(r_f.values, float))))
+            if not err <= ftol:
+                ctx.fail("history-fresh:%s:%d" % (cls, it), "%s re-oriented to given axes responds differently from a new %s constructed with those axes (max difference %.3g > %.3g)" % (
+                    cls, cls, err, ftol), rep)
+                break
+            # (c) joint rotation of the CURRENT axes, the direction and the polarization
+            if rng.random() < 0.6:
+                Rm, rdesc = rand_rotation(rng)
+                other = mk.build(p)                      # starts with the construction-time axes, is then re-oriented
+                o_obj = mk.wrap(other) if rng.random() < 0.5 else other
+                o_obj.set_orientation(z_axis=Rm @ cur_z, x_axis=Rm @ (cur_x if cur_x is not None else np.asarray(ant.x_axis, float)))
+                with np.errstate(all="ignore"):
+                    r_r = o_obj.apply_response(make_signal(times, xv, vt), direction=Rm @ direction, polarization=Rm @ pol, force_real=fr)
+                stats["rotation"] += 1
+                err = float(np.max(np.abs(np.asarray(out.values, float) - np.asarray(r_r.values, float))))
+                if not err <= ftol:
+                    ctx.fail("history-rotation:%s:%d" % (cls, it), "%s: after re-orientation the response is not invariant under a joint rotation of axes, direction and polarization (max difference %.3g > %.3g)" % (
+                        cls, err, ftol), dict(rep, rotation=rdesc))
+                    break
+    ctx.extra["history_probe_counts"] = stats
+
+
 # ---------------------------------------------------------------------------- entry points
 def run(ctx):
     ctx.rule = ("correspondence cases: (class, constructor parameters, orientation, point / signal / value type / direction / polarization / force_real), "
@@ -815,6 +995,7 @@ def run(ctx):
     except Exception as e:
         ctx.oblige("gen:Gen_antenna", False, "translation failed (fail-closed): %s" % e)
         probes(ctx)
+        probe_histories(ctx)
         return
     ok = ctx.coq_build("C08")
     if ok:
@@ -823,6 +1004,7 @@ def run(ctx):
         except Exception as e:
             ctx.oblige("corr:antenna", False, repr(e)[-1500:])
     probes(ctx)
+    probe_histories(ctx)
 
 
 def replay(ctx, obj):
@@ -851,6 +1033,34 @@ def replay(ctx, obj):
                 print("value_type", vt, "-> ValueError:", e)
     if "point" in obj:
         print("coords:", ant._convert_to_antenna_coordinates(np.asarray(obj["point"])))
+    if "history" in obj:
+        # construct / re-orient / respond history: replay it, show the response next to the oracle for the axes requested last
+        sysobj = o if obj.get("through_system") else (mk.wrap(ant) if obj.get("mode") in ("wrapped", "setup") else None)
+        cur_z = np.asarray(p["z"], float) / np.linalg.norm(p["z"])
+        cur_x = np.asarray(ant.x_axis, float)
+        H = response_H(p)
+        af, eff = antenna_factor_expected(p)
+        for i, h in enumerate(obj["history"]):
+            if h["op"] == "set_orientation":
+                tgt = sysobj if (h["via_system"] and sysobj is not None) else ant
+                tgt.set_orientation(z_axis=h["z"], x_axis=h["x"])
+                cur_z, cur_x = np.asarray(h["z"]) / np.linalg.norm(h["z"]), np.asarray(h["x"]) / np.linalg.norm(h["x"])
+                print("step %d: set_orientation%s -> z_axis %s x_axis %s" % (i, " (through AntennaSystem)" if h["via_system"] else "", ant.z_axis, ant.x_axis))
+                continue
+            tgt = sysobj if (h["through_system"] and sysobj is not None) else ant
+            times, xv = np.asarray(h["times"]), np.asarray(h["values"])
+            sig = make_signal(times, xv, h["value_type"])
+            if h["op"] == "receive":
+                tgt.receive(sig, direction=h["direction"], polarization=h["polarization"], force_real=h["force_real"])
+                out = ant.signals[-1]
+            else:
+                out = tgt.apply_response(sig, direction=h["direction"], polarization=h["polarization"], force_real=h["force_real"])
+            fx, _ = oracle_filter(times, xv, H, h["force_real"])
+            d, pg, _, _ = expected_gains(_Axes(cur_z, cur_x, ant.position), p, h["direction"], h["polarization"])
+            k = eff / (af if h["value_type"] == 2 else 1.0)
+            print("step %d: %s -> implementation %s\n         expected for the current axes (directional %.6g x polarization %.6g x %.6g): %s" % (
+                i, h["op"], np.asarray(out.values)[:6], d, pg, k, (fx * d * pg * k)[:6]))
+        return 1
     if "steps" in obj:
         # a receive history: replay it and show what the antenna stored / refused
         for i, st in enumerate(obj["steps"]):
